@@ -49,8 +49,12 @@ def generate(rng, tier):
                 d = SL.gen_dataset(rng, tier, offsets=False)
                 d["x"] = [abs(v) + 0.05 for v in d["x"]]
                 ds.append(SL.finish_dataset(d, cfg["mat"]))
+            reassigned = False
+            if cfg["Merging"] is not None and rng.random() < 0.35:    # an earlier, different assignment of the options
+                cfg["Merging_first"] = {"Y": {"Scale": 1.7, "Offset": 0.3}, "Q[S(Q)-1]": {"Y": {"Scale": 0.6, "Offset": -0.2}}}
+                reassigned = True
             cases.append({"cfg": cfg, "datasets": ds,
-                          "desc": {"shape": repr(shape), "n_datasets": k}})
+                          "desc": {"shape": repr(shape), "n_datasets": k, "options_reassigned": reassigned}})
     return cases
 
 
@@ -88,4 +92,11 @@ def oracle(pystog, case, res):
         return "stored curves disagree: Q[S(Q)-1] != Q*(S(Q)-1)"
     if np.isnan(sq).any() or np.isnan(fq).any():
         return "NaN in a stored curve"
+    # merging again on the same object must store the same two curves (the formula refers to the data, not to the call count)
+    st, _ = SL.run_sequence(pystog, case["cfg"], case["datasets"])
+    st.merge_data()
+    st.merge_data()
+    q2, s2, f2 = B.merged(st)
+    if not (np.array_equal(q2, q) and np.allclose(s2, sq, rtol=1e-9, atol=1e-12) and np.allclose(f2, fq, rtol=1e-9, atol=1e-12)):
+        return "a second merge_data on the same object stores different curves (options %s)" % case["desc"]["shape"]
     return None
